@@ -36,6 +36,13 @@ def views_replay(ctx, name, role, why, policies=None):
             problems.append(f'definite decision {a["decision"]} but reauthorize gives {a["reauthorize"]} and authorization from scratch {a["from_scratch"]}')
     if 'decision' in a['reauthorize'] and a['reauthorize'] != a['from_scratch']:
         problems.append(f'reauthorize {a["reauthorize"]} differs from authorization from scratch {a["from_scratch"]}')
+    # second consistent completion: the principal has no entity in the store (attribute access on it errors)
+    r2, s2 = a.get('reauthorize_absent_principal'), a.get('from_scratch_absent_principal')
+    if r2 is not None and s2 is not None:
+        if 'decision' in r2 and r2 != s2:
+            problems.append(f'absent principal: reauthorize {r2} differs from authorization from scratch {s2} (a residual is satisfied / erroring differently from its original policy)')
+        if a['decision'] is not None and s2['decision'] != a['decision']:
+            problems.append(f'definite decision {a["decision"]} but the completion with an absent principal gives {s2}')
     if problems:
         return ctx.violation(name, role, f'{why}: ' + '; '.join(problems[:3]), {'op': 'tpe_views', 'policies': text, 'problems': problems})
     return ctx.mismatch(name, f'{why}; but every public view of the TPE response agrees on the probe policies')
